@@ -556,6 +556,42 @@ func c15Worker(w *core.WorkerCtx) {
 				return rig.Gossip.GossipVrx(ctx, &protobufcompiled.VrxMsgGossip{Vertex: pv})
 			})
 		}
+		// ... and vertices that answer to the hash of a vertex the node holds already (genesis, a tip) while naming the
+		// awaiting transaction: unsigned garbage, a re-broadcast of the held vertex with the transaction swapped
+		{
+			aw := e.freshTrx(true)
+			if _, err := rig.Notary.Propose(ctx, aw); err == nil {
+				e.last = nil
+				s, _ := ledger.TakeSnap(rig.Book)
+				var held []*accountant.Vertex
+				g := rig.Genesis
+				held = append(held, &g)
+				for t := range s.Leaves {
+					c := s.Live[t].V
+					held = append(held, &c)
+				}
+				for hi, hv := range held {
+					for vi := 0; vi < 3; vi++ {
+						pv := gossip.VerifVertexToProtoVertex(hv)
+						switch vi {
+						case 0: // the held vertex as it is, only the transaction reference swapped
+							pv.Transaction.Hash = aw.Hash
+							pv.Transaction.ReceiverAddress = aw.ReceiverAddress
+						case 1: // the awaiting transaction as a whole under the held vertex's hash
+							pv.Transaction = proto.Clone(aw).(*protobufcompiled.Transaction)
+						case 2: // no signatures at all
+							pv.Transaction = proto.Clone(aw).(*protobufcompiled.Transaction)
+							pv.Signature = nil
+							pv.Transaction.IssuerSignature = nil
+						}
+						rig.Flash.RemoveAddress(string(hv.Hash[:])) // as after the 20 s duplicate-suppression window
+						e.call("gossip", "GossipVrx", fmt.Sprintf("hash of a held vertex (%d) naming an awaiting transaction (variant %d)", hi, vi), false, func() (any, error) {
+							return rig.Gossip.GossipVrx(ctx, &protobufcompiled.VrxMsgGossip{Vertex: pv})
+						})
+					}
+				}
+			}
+		}
 		// missing parent pull: the peers answer GetVertex with shaped vertices
 		for _, m := range vm {
 			m := m
